@@ -42,6 +42,11 @@ CHECKS = {
         note="Trusted: Coq kernel/vm_compute, the hand-written model (tied by correspondence + syn template tie, not proved equal to the Rust), the serde_derive missing-member rules as modelled in de_missing (validated by execution), tocoq/world/vh glue. External functions (Default, default fns, TryInto, flatten fallback, sanitize) are section variables without hypotheses, instantiated by tables measured on the same compiled module. Two recorded departures: flattened Required `extra` (F1) and flattened Option subtypes of anyOf structs (F2), both refuted in Coq with witnesses.",
         technique="machine-checked proof (Coq) + model/compiled-code correspondence + direct property evaluation on compiled builders",
         design="DESIGN 4 C18, notes/C18.md"),
+    "C06": dict(
+        text="proof (Coq 8.16.1, no axioms) on executable models of validate_value/output_value/default_fn: validation implies rendering succeeds for every type space, kind and value (unconditional after the repairs); shape, string, constraint and integer-range rejection for all inputs; typing of rendered defaults for scalar kinds under Option/Box/Vec/Set/arrays/tuples/newtypes; exactness for scalar kinds (partial for composite kinds)",
+        note="typing for structs/maps/enums/natives and exactness for composite kinds rest on the per-run agreement of the model with rustc and serde on the compiled world, not on a proof; expr_typed/eval_expr are models; the regex engine is a parameter instantiated from the real regress crate; findings F7, F9-F12 recorded, F1-F6 and F8 repaired by fix commits",
+        technique="verified algorithm model + K1 token-level correspondence with the real validate_value/output_value + K5 compiled-world direct evaluation with jsonschema oracle; finding classes decided by Coq class predicates on the dumped IR",
+        design="DESIGN 4 C06, notes/C06.md"),
 }
 
 NOT_YET = "not yet built in this round (planned, see DESIGN.md section 7)"
